@@ -114,6 +114,7 @@ pub fn site_name(s: u32) -> &'static str {
         2 => "get:pushed",
         3 => "get:computed",
         4 => "get:before-pop",
+        5 => "guard-mutex:held",
         10 => "cache:enter(before lock)",
         11 => "cache:computed(before re-lock)",
         12 => "cache:wait",
@@ -280,6 +281,29 @@ impl Sched {
 pub fn hook(site: u32) {
     if let Some((s, me)) = cur() {
         s.point(me, site);
+    }
+}
+/// condition number of a mutex of the code under test (disjoint from the cache's condition numbers)
+fn lock_cv(lock: usize) -> usize {
+    (1usize << 40) | (lock & ((1usize << 40) - 1))
+}
+/// the lock handler installed into pdf::verif: a thread that finds the guard mutex taken is parked until it is released
+pub fn lock_hook(ev: u32, lock: usize) -> bool {
+    match cur() {
+        Some((s, me)) => {
+            // after an abort (deadlock found, horizon hit) the threads are being unwound: never raise from here, the caller
+            // may be a drop guard; let the thread use the real mutex
+            if s.m.lock().unwrap().abort {
+                return false;
+            }
+            if ev == pdf::verif::EV_WOULD_BLOCK {
+                s.block(me, lock_cv(lock));
+            } else {
+                s.notify_all(lock_cv(lock));
+            }
+            true
+        }
+        None => false,
     }
 }
 
